@@ -83,6 +83,56 @@ func (s *sSet) hasDirective() bool {
 	return false
 }
 
+// usesDirective: some definition of the set carries a use of a directive the set defines (then a rewrite
+// without the directive definitions does not load at all; without a use it loads but is a different schema)
+func (s *sSet) usesDirective() bool {
+	defined := map[string]bool{}
+	for _, d := range s.defs {
+		if d.kind == "directive" {
+			defined[d.name] = true
+		}
+	}
+	any := func(ds []sDirUse) bool {
+		for _, u := range ds {
+			if defined[u.name] {
+				return true
+			}
+		}
+		return false
+	}
+	for _, d := range s.defs {
+		if any(d.dirs) {
+			return true
+		}
+		for _, f := range d.fields {
+			if any(f.dirs) {
+				return true
+			}
+			for _, a := range f.args {
+				if any(a.dirs) {
+					return true
+				}
+			}
+		}
+		for _, v := range d.values {
+			if any(v.dirs) {
+				return true
+			}
+		}
+		for _, f := range d.inFields {
+			if any(f.dirs) {
+				return true
+			}
+		}
+		for _, a := range d.dirArgs {
+			if any(a.dirs) {
+				return true
+			}
+		}
+	}
+	return false
+}
+
 // genSetSDL renders descriptions the way a schema author writes them: block strings for anything with
 // a quote, a backslash or a newline (so the *input* is always valid SDL; the question is the output)
 func (s *sSet) authorSDL() string {
@@ -149,7 +199,7 @@ func c15Case(o *Out, r *Rng, toolBin string) {
 		o.Count("has-directive-definition")
 	}
 	o.Emit(Case{
-		Term: N("c15", B(bs), B(tq), B(set.hasDirective())),
+		Term: N("c15", B(bs), B(tq), B(set.hasDirective()), B(set.usesDirective())),
 		Obs:  N("obs", B(whole.accepted), B(whole.sameSchema), B(whole.fixedPoint), B(tool.accepted), B(tool.sameSchema)),
 		Meta: map[string]interface{}{"printed": root.SDL(false, true), "whole_err": whole.err, "tool_err": tool.err},
 		Key:  root.SDL(false, true), Nontrivial: true,
